@@ -17,7 +17,7 @@ import DuckModel.ParserIndexed
 import DuckModel.Lemmas.IndexedLemmas
 import DuckModel.Lemmas.IndexedLineLemmas
 import DuckModel.Lemmas.IndexedInvLemmas
-import DuckModel.Props.C01
+import DuckModel.Props.C01Core
 import DuckModel.Props.C08Core
 
 namespace Duck
